@@ -7,6 +7,7 @@ import XzVerif.Proofs.LazyXz
 import XzVerif.Proofs.EofStable
 import XzVerif.Proofs.Src
 import XzVerif.Proofs.SrcLink
+import XzVerif.Proofs.SrcProg
 import XzVerif.Gen.SrcReads
 /-
   C13 — Decoded output is independent of read sizes and source fragmentation; EOF is stable.
@@ -515,6 +516,21 @@ theorem C13_reader_model_chunk_copy_is_the_access_layers_view (r : R2) (h : r.uE
          if 0 < (Src.viewCopyLim r.inp r.pos (SrcLink.endOf r.srcErr) r.uN r.l.dict.buf.available).2.2.1.size then RStat.ok
          else if (ufill r).1.uN ≠ 0 then RStat.err .unexpectedEOF else RStat.eof) :=
   SrcLink.ufill_is_viewCopyLim r h hp
+
+/-- **the composition, for every client at once**: a reader is a deterministic program whose only contact with its source
+    are calls of the access layer, each continuing with what the call returned (`Src.Prog`: all such programs, arbitrary
+    continuations).  On two sources with the same bytes that end with io.EOF and fragment in ANY two ways (also: the end
+    reported together with the last bytes or alone), every such program computes the same result. -/
+theorem C13_every_client_of_the_access_layer_is_fragmentation_independent {α : Type} (p : Src.Prog α) (a b : Src.S)
+    (ha : a.pos ≤ a.data.size) (hab : Src.SameView a b) (he : a.ends = .eof) :
+    (Src.run p a).1 = (Src.run p b).1 ∧ Src.SameView (Src.run p a).2 (Src.run p b).2 :=
+  Src.run_frag_independent p a b ha hab he
+
+/-- the same for sources that fail at their end with the error arriving alone (C09's sources) -/
+theorem C13_every_client_failing_source_fragmentation_independent {α : Type} (p : Src.Prog α) (a b : Src.S)
+    (ha : a.pos ≤ a.data.size) (hab : Src.SameView a b) (hta : a.together = false) (htb : b.together = false) :
+    (Src.run p a).1 = (Src.run p b).1 ∧ Src.SameView (Src.run p a).2 (Src.run p b).2 :=
+  Src.run_frag_independent_fail p a b ha hab hta htb
 
 /-! ### END-SRC-BLOCK -/
 
